@@ -24,6 +24,13 @@ pub struct PluginOpts {
     /// simple OOV (always last): (left, right, cost)
     pub simple: (i64, i64, i64),
     pub n_users: usize,
+    /// custom definition files (None = the repository's resources/ files)
+    pub rewrite_def: Option<String>,
+    pub char_def: Option<String>,
+    /// settings of the prolonged-sound-mark plugin: (marks, replacement)
+    pub prolonged_cfg: Option<(Vec<char>, String)>,
+    /// settings of the yomigana plugin: (left brackets, right brackets, max length)
+    pub yomigana_cfg: Option<(Vec<char>, Vec<char>, usize)>,
 }
 
 impl PluginOpts {
@@ -39,6 +46,10 @@ impl PluginOpts {
             inhibit: vec![],
             simple: (0, 0, 10000),
             n_users: 0,
+            rewrite_def: None,
+            char_def: None,
+            prolonged_cfg: None,
+            yomigana_cfg: None,
         }
     }
 
@@ -77,12 +88,17 @@ impl PluginOpts {
             input.push(json!({"class": format!("{}DefaultInputTextPlugin", CLS)}));
         }
         if self.prolonged {
+            let (marks, repl) = self.prolonged_cfg.clone().unwrap_or((vec!['ー', '-', '⁓', '〜', '〰'], "ー".to_string()));
+            let marks: Vec<String> = marks.iter().map(|c| c.to_string()).collect();
             input.push(json!({"class": format!("{}ProlongedSoundMarkPlugin", CLS),
-                "prolongedSoundMarks": ["ー", "-", "⁓", "〜", "〰"], "replacementSymbol": "ー"}));
+                "prolongedSoundMarks": marks, "replacementSymbol": repl}));
         }
         if self.yomigana {
+            let (l, r, max) = self.yomigana_cfg.clone().unwrap_or((vec!['(', '（'], vec![')', '）'], 4));
+            let l: Vec<String> = l.iter().map(|c| c.to_string()).collect();
+            let r: Vec<String> = r.iter().map(|c| c.to_string()).collect();
             input.push(json!({"class": format!("{}IgnoreYomiganaPlugin", CLS),
-                "leftBrackets": ["(", "（"], "rightBrackets": [")", "）"], "maxYomiganaLength": 4}));
+                "leftBrackets": l, "rightBrackets": r, "maxYomiganaLength": max}));
         }
         let mut oov = vec![];
         if self.mecab {
@@ -168,6 +184,8 @@ impl World {
             "user_csvs": self.user_csvs.iter().map(|s| clip(s)).collect::<Vec<_>>(),
             "config": self.cfg_json,
             "unk_def": clip(&self.unk_def),
+            "rewrite_def": self.plugins.rewrite_def.as_ref().map(|s| clip(s)),
+            "char_def": self.plugins.char_def.as_ref().map(|s| clip(s)),
             "definitions": "char.def and rewrite.def are the repository's resources/ files unless given here",
         })
     }
@@ -188,6 +206,12 @@ pub fn build_world_from(rng: &mut Rng, dopts: &DictOpts, matrix: Matrix, sys: Le
     let pool = dictgen::pos_pool();
     let unk_def = dictgen::gen_unk_def(rng, &matrix, &pool[0..3]);
     res.write("unk.def", &unk_def);
+    if let Some(t) = &plugins.rewrite_def {
+        res.write("rewrite.def", t);
+    }
+    if let Some(t) = &plugins.char_def {
+        res.write("char.def", t);
+    }
     let sys_csv = sys.to_csv(None);
     let matrix_text = matrix.to_text();
     let sys_bytes = env::compile_system(sys_csv.as_bytes(), matrix_text.as_bytes())
